@@ -9,12 +9,12 @@
 (***************************************************************************)
 EXTENDS Values, ValueUniverses, Json
 
-CONSTANTS Part, NParts
+CONSTANTS UName, Part, NParts
 
 VARIABLES di, dd, dp, K, V, mod, phase, p, m, p2
 vars == <<di, dd, dp, K, V, mod, phase, p, m, p2>>
 
-U == UV_Smoke
+U == PickUV(UName)
 USeq == SetToSeq(U)
 ASSUME Part = 0 => PrintT(<<"UNIV", ToJson(USeq)>>)
 
